@@ -19,6 +19,13 @@ MINIMA = {"*": {"trajectories": 400, "row_pairs_with_firing": 10000, "nontrivial
 SIMS = ["ssa", "safe_ssa", "volume_const", "volume_grow", "delay", "delay_volume", "psm_safe", "psm_stochastic"]
 
 
+SANITIZE_TIERS = ("thorough",)
+
+
+def sanitize_subset(cases):
+    return cases[:60]
+
+
 def generate(tier, seed):
     rnd = util.rng(PROPERTY, tier, seed, "cases")
     n = 160 if tier == "quick" else 1500
